@@ -1133,7 +1133,10 @@ def MPD(phi: np.ndarray) -> float:
     w = np.abs(phi)
     num = phi.real * V[1, 1] - phi.imag * V[0, 1]
     den = np.sqrt(V[0, 1] ** 2 + V[1, 1] ** 2) * np.abs(phi)
-    MPD = np.sum(w * np.arccos(np.abs(num / den))) / np.sum(w)
+    # components with zero magnitude carry zero weight; rounding must not push
+    # the arccos argument above 1
+    ratio = np.divide(np.abs(num), den, out=np.ones_like(den), where=den > 0)
+    MPD = np.sum(w * np.arccos(np.clip(ratio, 0.0, 1.0))) / np.sum(w)
     return MPD
 
 
